@@ -42,6 +42,7 @@ fn case(source: &str, layout: Layout, events: Vec<Event>) -> Case {
         trace_tape: None,
         ext_tape: None,
         ev_tape: None,
+        std_tape: None,
         print_bits: 0,
         mode: "handmade".into(),
         source: source.to_string(),
